@@ -62,22 +62,22 @@ def order(ctx: Ctx):
     repo = ctx.repo
     fn = repo.func(SSO, "perform_vehicle_state_updates")
     s0 = fn.params[0]
-    # the loop
-    loops = [s for s in ast.walk(fn.node) if isinstance(s, ast.For)]
-    step_loops = [l for l in loops if any(isinstance(c, ast.Call) and flow.dump(c.func) == "step_vehicle" for c in ast.walk(l))]
-    if len(step_loops) != 1:
-        raise AnalysisError("perform_vehicle_state_updates: expected exactly one loop calling step_vehicle")
-    loop = step_loops[0]
-    # expanded iterable of the loop
+    # the fold that applies step_vehicle to the vehicles, in either spelling (accumulator loop / reduce with any reducer)
     it = None
-    for p in flow.paths(fn.node):
-        for c in p.conds:
-            if c.raw is loop and c.pol == "iter":
-                for e in p.events:
-                    if e.name == "step_vehicle" and len(e.call.args) >= 3 and flow.is_syn(e.call.args[2], "$elem"):
-                        it = e.call.args[2].args[0]
+    loop = fn.node
+    for F, XS, INIT in rules.recognise_folds(fn):
+        r = flow.dump(rules.reducer_expr(repo, fn, F))
+        if r.startswith("step_vehicle("):
+            if r != f"step_vehicle(ACC, {fn.params[1]}, X)":
+                ctx.violation("D1", "ORD.queue-order", "each step of the vehicle-update fold is step_vehicle(accumulated state, env, vehicle)", fn, F,
+                              why=f"the fold computes {r[:120]}", construct="perform_vehicle_state_updates:reducer")
+            if flow.dump(INIT) != s0:
+                ctx.violation("D1", "ORD.queue-order", "the vehicle-update fold starts from the state it was given", fn, INIT,
+                              why=f"starts from {flow.dump(INIT)[:80]}", construct="perform_vehicle_state_updates:init")
+            it = XS
+            loop = F
     if it is None:
-        raise AnalysisError("perform_vehicle_state_updates: step_vehicle is not applied to the loop element")
+        raise AnalysisError("perform_vehicle_state_updates: no fold applying step_vehicle to the vehicles was recognised")
     src_ok = lambda d: d in (f"tuple({s0}.vehicles.values())", f"{s0}.vehicles.values()", f"{s0}.get_vehicles()", f"tuple({s0}.get_vehicles())")
     recognised = False
     # shape A: helper(_sort_by_vehicle_state)(all vehicles)
@@ -97,15 +97,16 @@ def order(ctx: Ctx):
         judge_order(ctx, fn, it, None, all_src=src_ok)
     if not recognised:
         raise AnalysisError(f"perform_vehicle_state_updates: unrecognised construction of the update order: {flow.dump(it)[:120]}")
-    ctx.ok("D1", "ORD.queue-order", "the update loop applies step_vehicle to every element of the ordered sequence", fn, loop)
-    bad_exit = [t for t in ast.walk(loop) if isinstance(t, (ast.Break, ast.Return))]
+    ctx.ok("D1", "ORD.queue-order", "the update fold applies step_vehicle to every element of the ordered sequence (a fold has no early exit)", fn, loop)
+    raw_loops = [l for l in ast.walk(fn.node) if isinstance(l, (ast.For, ast.While)) and any(isinstance(c, ast.Call) and flow.dump(c.func) == "step_vehicle" for c in ast.walk(l))]
+    bad_exit = [t for l in raw_loops for t in ast.walk(l) if isinstance(t, (ast.Break, ast.Return))]
     ctx.check(not bad_exit, "D1", "ORD.queue-order", "the update loop has no early exit", fn, loop, why_bad="break/return inside the loop", construct="perform_vehicle_state_updates:early-exit")
     rules.rule_fold_threading(ctx, "D1", fn, 1)
     # partition helper semantics
     pf = repo.func(TO, "TupleOps.partition")
     pred, t = pf.params[1:3]
     ps = [p for p in flow.paths(pf.node) if p.kind == "return"]
-    ok = len(ps) == 1 and flow.dump(ps[0].value) == f"(tuple(filter({pred}, it.tee({t})[0])), tuple(it.filterfalse({pred}, it.tee({t})[1])))"
+    ok = flow.values_match(ps, f"(tuple(filter({pred}, it.tee({t})[0])), tuple(it.filterfalse({pred}, it.tee({t})[1])))")
     ctx.check(ok, "D1", "ORD.queue-order", "TupleOps.partition returns (matching, non-matching), each in input order", pf,
               why_bad=f"returns {flow.dump(ps[0].value)[:160] if ps else '?'}", construct="TupleOps.partition")
 
